@@ -319,6 +319,19 @@ def svd_truncated(
             int(ar.do("count_nonzero", ss >= abs_cutoff, like=backend))
             for ss in s.blocks.values()
         ]
+
+        if max_bond > 0:
+            # values exactly tied at the threshold are all counted above, which
+            # can exceed the maximum bond: trim such tied values until it fits
+            excess = sum(sub_max_bonds) - max_bond
+            for i, ss in reversed(tuple(enumerate(s.blocks.values()))):
+                while (
+                    (excess > 0)
+                    and (sub_max_bonds[i] > 0)
+                    and (ss[sub_max_bonds[i] - 1] <= abs_cutoff)
+                ):
+                    sub_max_bonds[i] -= 1
+                    excess -= 1
     else:
         # size of each sector
         sector_sizes = tuple(map(ar.size, s.blocks.values()))
